@@ -15,8 +15,9 @@ def build_jobs(tier, seed):
     jobs = []
     specs = []
     for i in range(nprob):
+        # problems 0 (all device counts) and 1 are in tiny units (rewards and the injected value vectors scaled by 2^-36)
         spec = gen.gen_spec(rng, smax=12 if tier == "quick" else 40, kind=rng.choice(["random", "random", "periodic", "unichain"]),
-                            denom=rng.choice([4, 8]))
+                            denom=rng.choice([4, 8]), tiny=True if i < 2 else None, A=rng.choice([3, 4, 6]) if i < 2 else None)
         specs.append(spec)
     for d in devs:
         # split the problems over two worker processes per device count
@@ -41,6 +42,8 @@ def build_jobs(tier, seed):
                         nV = 2 if tier == "quick" else 4
                         for _ in range(nV):
                             V = gen.rand_values(r2, S, R=r2.choice([2, 8, 64]), denom=r2.choice([1, 2, 4]))
+                            if "tiny-scale" in spec["_tags"]:
+                                V = [v * Fraction(1, 2 ** 36) for v in V]
                             ops.append({"op": "sweep", "id": pid, "maxbs": mb, "gamma": g, "V": [frac(v) for v in V]})
             if ops:
                 jobs.append((ops, d))
